@@ -262,7 +262,21 @@ func (w *response) bodyAllowed() bool {
 	if !w.wroteHeader {
 		panic("")
 	}
-	return w.status != bfe_http.StatusNotModified
+	return bodyAllowedForStatus(w.status)
+}
+
+// bodyAllowedForStatus reports whether a given response status code
+// permits a body. See RFC 7230, section 3.3.3.
+func bodyAllowedForStatus(status int) bool {
+	switch {
+	case status >= 100 && status <= 199:
+		return false
+	case status == bfe_http.StatusNoContent:
+		return false
+	case status == bfe_http.StatusNotModified:
+		return false
+	}
+	return true
 }
 
 // The Life Of A Write is like this:
